@@ -232,7 +232,14 @@ def c20(ctx):
                       name="C20_lazy_selftest", allow_violation=True)
         if not run["violated"]:
             raise Broken("self-test failed: the SharedRead model does not flag in-place normalisation inside a read-only method")
-        ctx.cov["extra"].setdefault("selftests", []).append({"lazy_normalisation_flagged_by_model": True})
+        # the same for a lazily created field of a fresh suite object (first concurrent RandomStream() calls)
+        run = ctx.tlc("SharedRead", cfg(constants={"G": 2, "Kinds": ["suite"], "Lazy": ["suite/RandomStream"]},
+                                        invariants=["TypeOK", "NoConflict", "ResultsSequential"]),
+                      name="C20_lazy_suite_selftest", allow_violation=True)
+        if not run["violated"]:
+            raise Broken("self-test failed: the SharedRead model does not flag lazy initialisation inside a suite's read-only method")
+        ctx.cov["extra"].setdefault("selftests", []).append({"lazy_normalisation_flagged_by_model": True,
+                                                             "lazy_suite_field_flagged_by_model": True})
     race = _bin(ctx, race=True)
     for i, f in enumerate(files):
         if sum(1 for _ in open(f)) == 0:
@@ -248,7 +255,7 @@ def c20(ctx):
         if hr:
             raise Broken("the race detector reported a race that does not touch kyber (harness defect):\n" + hr[0][:3000])
     return ctx.finish("exploration",
-                      "workload = (object kind, representation, multiset of 2 (thorough: also 3) read-only operations) enumerated by TLC from spec/SharedRead.tla x configuration (21 groups, 9 scalar implementations, 9 suites, 5 pairing suites, BDN/CoSi masks, 5 PubPoly groups, 11 verifiers); distinct = (kind, configuration, representation, operations)",
+                      "workload = (object kind, representation (decoded / arith values; fresh = new suite / scheme / mask / PubPoly object whose first calls are made concurrently by the goroutines; warm = one stream object shared), multiset of 2 (thorough: also 3) read-only operations) enumerated by TLC from spec/SharedRead.tla x configuration (21 groups, 9 scalar implementations, 9 suites, 5 pairing suites, BDN/CoSi masks, 5 PubPoly groups, 11 verifiers); distinct = (kind, configuration, representation, operations)",
                       C20_ASSUME, exhaustive=False)
 
 
